@@ -691,7 +691,10 @@ def C10(tier, seed):
              ("paint", 2, g3, {"iou": True, "disable": ["iou"]}),
              # a feature switched off BETWEEN an edit and its undo stays untouched by the undo
              ("paint", 2, g2, {"disable_mid": "area"}), ("paint", 2, g2, {"iou": True, "disable_mid": "iou"}),
-             ("UserDeleteNode", 2, g2, {"disable_mid": "area"})]
+             ("UserDeleteNode", 2, g2, {"disable_mid": "area"}),
+             # a full cycle on one object: enable (recompute), disable, EDIT, enable (recompute)
+             ("paint", 2, g2, {"cycle": "ellipse_axis_radii", "scale": "iso"}),
+             ("paint", 2, g2, {"cycle": "iou"})]
     runs += R.seg_runs("C10", tier, specs)
     from harness import step, step_replay
     nn = 3 if q else 4
